@@ -122,7 +122,7 @@ def extra_c17(tier, seed, workdir, sh, GH, GM):
     if not os.path.exists(os.path.join(mdir, "Cargo.lock")):
         import shutil
         shutil.copy("/repo/Cargo.lock", os.path.join(mdir, "Cargo.lock"))
-    rc, out = sh(["cargo", "+nightly", "miri", "run"], cwd=mdir, timeout=1500)
+    rc, out = sh(["cargo", "+nightly", "miri", "run"], cwd=mdir, timeout=600)
     ok = rc == 0 and "miri-scenarios-ok" in out
     findings = []
     if not ok:
